@@ -137,6 +137,56 @@ def fuse_rules(repo):
     return rules, fusable
 
 
+fp("dask/array/core.py", "broadcast_shapes", "common_blockdim", "unify_chunks", "elemwise", "is_scalar_for_elemwise",
+   "_elemwise_handle_where", "_enforce_dtype", "handle_out", "map_blocks", "Array.__dask_keys__", "Array.numblocks",
+   "Array.shape", "Array.chunks", "broadcast_chunks")
+fp("dask/array/blockwise.py", "blockwise")
+fp("dask/array/ufunc.py", "ufunc.__call__", "wrap_elemwise")
+fp("dask/array/gufunc.py", "apply_gufunc", "_parse_gufunc_signature", "_validate_normalize_axes")
+
+
+def ufunc_table(repo):
+    """[(dask name, numpy name, kind)] from the module-level assignments of dask/array/ufunc.py:
+        name = ufunc(np.X)            -> kind "ufunc"
+        name = wrap_elemwise(np.X)    -> kind "wrap"
+        a = b = ufunc(np.X)           -> both names
+        name = other_name             -> alias of an already extracted entry"""
+    tree = parse(repo, "dask/array/ufunc.py")
+    out, by_name = [], {}
+    for st in tree.body:
+        if not isinstance(st, ast.Assign):
+            continue
+        v = st.value
+        targets = [t.id for t in st.targets if isinstance(t, ast.Name)]
+        if not targets:
+            continue
+        if (isinstance(v, ast.Call) and isinstance(v.func, ast.Name) and v.func.id in ("ufunc", "wrap_elemwise")
+                and len(v.args) == 1 and isinstance(v.args[0], ast.Attribute) and _name(v.args[0].value) == "np"):
+            for t in targets:
+                e = (t, v.args[0].attr, "ufunc" if v.func.id == "ufunc" else "wrap")
+                out.append(e)
+                by_name[t] = e
+        elif isinstance(v, ast.Name) and v.id in by_name:
+            for t in targets:
+                e = (t, by_name[v.id][1], by_name[v.id][2])
+                out.append(e)
+                by_name[t] = e
+    if len(out) < 80:
+        raise ExtractError(f"dask/array/ufunc.py: only {len(out)} ufunc assignments recognised")
+    return out
+
+
+@table("UfuncTable")
+def _ufunc_table(repo):
+    rows = ufunc_table(repo)
+    lines = ["namespace Dask.Generated.UfuncTable",
+             "/-- `dask.array.ufunc`: (dask name, wrapped NumPy name) -/",
+             "def table : List (String × String) := ["
+             + ", ".join(f"({lean_str(d)}, {lean_str(n)})" for d, n, _ in rows) + "]",
+             "end Dask.Generated.UfuncTable", ""]
+    return "\n".join(lines)
+
+
 @table("FuseRules")
 def _fuse_rules_table(repo):
     rules, fusable = fuse_rules(repo)
